@@ -23,6 +23,8 @@ type Outcome struct {
 	// Soft violations are recorded (with this history as replay) but the state is still expanded;
 	// used for deviations that are already understood, so that they do not prune the search.
 	Soft [][2]string // (key, what)
+	// Terminal: a state that is counted but not expanded (and not used for the merge self-test)
+	Terminal bool
 }
 
 // Spec describes one search.
@@ -190,6 +192,9 @@ func (r *Run) Explore(s Spec) Result {
 					continue
 				}
 				if rep, ok := seen[sc.out.Key]; ok {
+					if sc.out.Terminal {
+						continue
+					}
 					mergeCount++
 					if s.MergeCheckEvery > 0 && mergeCount%s.MergeCheckEvery == 0 && depth < s.Depth {
 						res.MergeChecks++
@@ -217,7 +222,9 @@ func (r *Run) Explore(s Spec) Result {
 				}
 				seen[sc.out.Key] = sc.hist
 				res.States++
-				next = append(next, node{sc.hist})
+				if !sc.out.Terminal {
+					next = append(next, node{sc.hist})
+				}
 				if res.States%997 == 1 {
 					r.Sample(map[string]interface{}{"search": s.Name, "ops": names(sc.hist)})
 				}
